@@ -14,8 +14,8 @@ impl Property for C01 {
     }
     fn strategy(&self, tier: Tier) -> BoxedStrategy<History> {
         match tier {
-            Tier::Quick => history_strategy(24, 3, true, true).boxed(),
-            Tier::Thorough => history_strategy(50, 4, true, true).boxed(),
+            Tier::Quick => crate::hist::history_strategy_big(24, 3, true, true, true).boxed(),
+            Tier::Thorough => crate::hist::history_strategy_big(50, 4, true, true, true).boxed(),
         }
     }
     fn cases(&self, tier: Tier) -> u32 {
@@ -83,7 +83,9 @@ impl Property for C01 {
                     }
                 };
                 let tip = compare_utxos(&mut w, a, &real, &mut out, &ctx);
-                let limit = 1 + (i + a.len()) % 3;
+                // small page sizes for small sets; a few hundred for addresses that hold more
+                // than the real page limit
+                let limit = if real.utxos.len() > 60 { 250 + 250 * ((i + a.len()) % 3) } else { 1 + (i + a.len()) % 3 };
                 match sut::get_utxos_all_pages(case.cfg.net, a, &Filter::None, Some(limit)) {
                     Ok(Ok((ans, pages))) => {
                         if pages > 1 {
